@@ -310,7 +310,8 @@ class pmodcovar(ParametricSpectrum):
         from spectrum import arma2psd
         ar, e = modcovar(self.data, self.ar_order)
         self.ar = ar
-        psd = arma2psd(A=ar, T=self.sampling, NFFT=self.NFFT)
+        self.rho = e
+        psd = arma2psd(A=ar, rho=e, T=self.sampling, NFFT=self.NFFT)
 
         if self.datatype == 'real':
             if self.NFFT % 2 == 0:
